@@ -608,6 +608,26 @@ theorem WF_grab {s : State} (h : WF s) (hd : Nat) (lid : Nat) : WF (grab s hd li
     · exact h.att_free
     · exact h.descr_eq
 
+theorem WF_grabMask {s : State} (h : WF s) (hd : Nat) : WF (grabMask s hd).1 := by
+  unfold grabMask
+  split
+  · exact h
+  · constructor
+    · exact h.next_pos
+    · exact h.data_lt
+    · exact h.data_inj
+    · exact h.att_lt
+    · exact h.att_name
+    · exact h.att_dims
+    · intro hh a dd hl
+      simp only [List.lookup_cons] at hl
+      split at hl
+      · simp at hl; rw [← hl.1]; exact h.next_pos
+      · exact h.handle_lt hh a dd hl
+    · exact h.legacy_data
+    · exact h.att_free
+    · exact h.descr_eq
+
 theorem WF_fromData {s : State} (h : WF s) (n : String) (hd : Nat) : WF (fromData s n hd).1 := by
   unfold fromData
   split
@@ -661,6 +681,7 @@ theorem WF_step {s : State} (h : WF s) (op : Op) : WF (step s op).1 := by
   | modifyCell l c f => exact h.of_sameShape (sameShape_modifyCell ..)
   | modifyCellU l c op x => exact h.of_sameShape (sameShape_modifyCellU ..)
   | grab hd l => exact WF_grab h hd l
+  | grabMask hd => exact WF_grabMask h hd
   | fromData n hd => exact WF_fromData h n hd
   | hget hd c => exact h
   | hset hd c v => exact h.of_sameShape (sameShape_hset ..)
